@@ -55,9 +55,9 @@ ASSUMPTIONS = ['io.BytesIO read/seek/tell semantics (seek >= 2^63 raises Overflo
                'built with; file_* streams: the container is modelled too (C01 mirror of elffile.py)',
                'hist: the position of the stream after a call that raised is not compared (wherever construct stopped '
                'reading); it is compared again after the next call that positions the stream absolutely',
-               'hist: on a MUTATED section carrying a ten-byte ULEB128 length the generators\' bare stream.seek(offset >= 2^63) is '
+               'hist, attr_raw (malformed contents only): on a section carrying a ten-byte ULEB128 length the generators\' bare stream.seek(offset >= 2^63) is '
                'CPython\'s OverflowError where the model reports the following short read (ELFParseError); that outcome pair '
-               'alone is set aside and counted (hist:set-aside:bare-seek-beyond-2^63)',
+               'alone is set aside and counted (…:set-aside:bare-seek-beyond-2^63)',
                'CPython recursion limit not reached (< 300 nested TAG_ALSO_COMPATIBLE_WITH)',
                'str is compared through its UTF-8 bytes']
 
@@ -306,7 +306,9 @@ def attr_check(ctx, stream, case, image, arch, off, size, expect, model, lv_mode
         # malformed / out-of-domain contents: the levelwise observation against the levelwise model
         lv = run_obs(lambda: observe_levelwise(image, arch, cap))
         out.count('levelwise:' + ('ok' if 'ok' in lv_model else lv_model['err']))
-        if lv != lv_model:
+        if lv != lv_model and bare_seek_beyond((None, None, lv, lv_model), image, b''):
+            out.count(stream + ':set-aside:bare-seek-beyond-2^63')
+        elif lv != lv_model:
             out.violation('correspondence', stream, dict(case, pattern='levelwise'), got=lv, model=lv_model)
             return
     if expect is not None:
@@ -325,6 +327,9 @@ def attr_check(ctx, stream, case, image, arch, off, size, expect, model, lv_mode
         if cn != {'ok': counts_of(expect)}:
             out.violation('property', stream, dict(case, pattern='counts'), expect=counts_of(expect), got=cn, model=model)
             return
+    if impl != model and expect is None and bare_seek_beyond((None, None, impl, model), image, b''):
+        out.count(stream + ':set-aside:bare-seek-beyond-2^63')
+        return
     if impl != model:
         out.violation('correspondence', stream, case, got=impl, model=model)
 
@@ -1345,6 +1350,8 @@ def replay(ctx, payload):
             impl = run_obs(lambda: observe_nested(image, arch, cap))
         model = m['levelwise'] if pat == 'levelwise' and v.get('kind') == 'correspondence' else m['model']
         fails = (impl != {'ok': expect}) if expect is not None and v.get('kind') != 'correspondence' else (impl != model)
+        if fails and expect is None and bare_seek_beyond((None, None, impl, model), image, b''):
+            fails = False           # the counted boundary of the correspondence (ASSUMPTIONS)
         res.update(impl=impl, expect=expect, model=model, fails=fails)
     elif stream in ('exidx', 'exidx_raw'):
         image = bytes.fromhex(case['image'])
